@@ -142,8 +142,8 @@ Fixpoint hfs_needle (fuel : nat) (s : bytes) (needle : bytes) : bool :=
 (* IsHFSDot(part, needle) *)
 Definition is_hfs_dot (part needle : bytes) : bool :=
   match skip_ign part with
-  | 46 :: r => hfs_needle (S (List.length needle)) r needle
-  | _ => false
+  | c :: r => (c =? 46) && hfs_needle (S (List.length needle)) r needle
+  | [] => false
   end.
 
 Definition N_git : bytes := [103; 105; 116].
@@ -160,12 +160,16 @@ Fixpoint only_spaces_periods (s : bytes) : bool :=
   end.
 
 (* IsNTFSDotGit *)
+(* the switch: case 1 = len >= 4 && ".git" (folded), case 2 = len >= 5 && "git~1" *)
 Definition is_ntfs_dotgit (p : bytes) : bool :=
   match p with
-  | 46 :: g :: i :: t :: r =>
-    (lower g =? 103) && (lower i =? 105) && (lower t =? 116) && only_spaces_periods r
-  | g :: i :: t :: 126 :: 49 :: r =>
-    (lower g =? 103) && (lower i =? 105) && (lower t =? 116) && only_spaces_periods r
+  | a :: g :: i :: t :: r =>
+    if (a =? 46) && (lower g =? 103) && (lower i =? 105) && (lower t =? 116) then only_spaces_periods r
+    else match r with
+         | e :: r' => (lower a =? 103) && (lower g =? 105) && (lower i =? 116) && (t =? 126) && (e =? 49) &&
+                      only_spaces_periods r'
+         | [] => false
+         end
   | _ => false
   end.
 
@@ -210,12 +214,12 @@ Fixpoint ntfs_short (i : nat) (s : bytes) (pre : bytes) (saw_tilde : bool) : boo
 Definition is_ntfs_dot (name dotgit short : bytes) : bool :=
   let n := List.length dotgit in
   (match name with
-   | 46 :: r => Nat.leb n (List.length r) && fold_eq (firstn n r) dotgit && only_spaces_periods (skipn n r)
-   | _ => false
+   | c :: r => (c =? 46) && Nat.leb n (List.length r) && fold_eq (firstn n r) dotgit && only_spaces_periods (skipn n r)
+   | [] => false
    end) ||
   (Nat.leb 6 n && Nat.leb 8 (List.length name) && fold_eq (firstn 6 name) (firstn 6 dotgit) &&
    (match skipn 6 name with
-    | 126 :: d :: r => (49 <=? d) && (d <=? 52) && only_spaces_periods r
+    | t :: d :: r => (t =? 126) && (49 <=? d) && (d <=? 52) && only_spaces_periods r
     | _ => false
     end)) ||
   (Nat.leb 6 (List.length short) && Nat.leb 8 (List.length name) && ntfs_short 0 name short false).
